@@ -14,7 +14,7 @@
    bool" early return are invisible in the values - the model still applies the cast).
 
    [legacy] = the pinned tree: check_phase compared alleles after a cast to bool (unphased
-   1/2 passed) and GenotypesAncestry.check_maf(discard) left the ancestry array unshrunk. *)
+   1/2 passed, and 0/. raised while 1/. did not) and GenotypesAncestry.check_maf(discard) left the ancestry array unshrunk. *)
 From HV Require Import Prelude GenoTable.
 Open Scope Z_scope.
 
@@ -26,8 +26,11 @@ Inductive qout :=
 Definition is_missing (anc : bool) (x : Z) : bool := if anc then x =? 255 else 254 <=? x.
 Definition cell_missing (anc : bool) (x : cell) : bool := is_missing anc (ca x) || is_missing anc (cb x).
 Definition cell_multi (x : cell) : bool := (1 <? ca x) || (1 <? cb x).
+(* heterozygous = both alleles present (< 254, as in check_missing) and different; a half-missing
+   or haploid call (second allele 255, phase flag 0) is not a heterozygote *)
 Definition cell_unphased (legacy : bool) (x : cell) : bool :=
-  (if legacy then xorb (negb (ca x =? 0)) (negb (cb x =? 0)) else negb (ca x =? cb x))
+  (if legacy then xorb (negb (ca x =? 0)) (negb (cb x =? 0))
+   else negb (ca x =? cb x) && (ca x <? 254) && (cb x <? 254))
   && (cp x =? 0).
 
 Definition maskof (f : cell -> bool) (t : gtab) : list (list bool) := map (map f) (g_rows t).
